@@ -720,3 +720,35 @@ def c06_structural():
         w = _ambiguous_repetition(pat) if pat else 'pattern not found'
         ob('scanner_pattern_%s_has_no_ambiguous_repetition' % arg, 'refuted' if w else 'discharged', 'pattern %r: %s' % (pat, w or 'linear'))
     return out
+
+
+# ------------------------------------------------------------------ String.cook: what gets rendered is THIS template's parse
+def _cook_exit(E, outcome, value, env, prefix):
+    ob = _ob(E, prefix, 'C01')
+    if outcome != 'normal':
+        return
+    me = E.heap[env.locals['self'].addr]
+    calls = [t for t in E.trace if t[0] == 'contract-call' and t[1] == PA]
+    rets = [t for t in E.trace if t[0] == 'contract-ret' and t[1] == PA]
+    ob('cook.parses_once', bool(len(calls) == 1 and len(rets) == 1), 'cook runs the parser exactly once')
+    if len(calls) != 1 or len(rets) != 1:
+        return
+    args = calls[0][2]
+    ob('cook.parses_with_its_own_parser', bool(args.get('self') is env.locals['self'] or (
+        isinstance(args.get('self'), VRef) and args['self'].addr == env.locals['self'].addr)),
+       'the parser that runs is the one of this template object (its class decides the tag syntax and the command table)')
+    txt = args.get('text')
+    ok = txt is not None and E.is_strlike(txt)
+    ob('cook.parses_its_own_source', (E.as_z3_str(txt) == z3.String('self.raw')) if ok else False,
+       'the text parsed is the source of this template (read())')
+    st = args.get('start')
+    ob('cook.parses_from_the_beginning', (E.as_z3_int(st) == 0) if st is not None and E.is_intlike(st) else False, 'parsing starts at offset 0')
+    blocks = me.fields.get('_v_blocks')
+    ob('cook.stores_the_result_of_that_parse', bool(blocks is rets[0][2] or (
+        isinstance(blocks, VRef) and isinstance(rets[0][2], VRef) and blocks.addr == rets[0][2].addr)),
+       'the compiled blocks stored on the template are the list that this parse returned (not a list obtained elsewhere)')
+
+
+contract(ST + '.cook', variant='C01',
+         params=dict(self=Obj(ST, lazy=True, fields={'raw': Str()})),
+         exit_hook=_cook_exit, uses=[PA], raises=['ParseError'])
